@@ -368,7 +368,10 @@ def check_convert_value(val: str, char: Characteristic) -> Any:
         # See https://github.com/home-assistant/core/issues/37083
         if char.minStep:
             with localcontext() as ctx:
-                ctx.prec = 6
+                # Six significant digits are what we keep for fractional values;
+                # integer formats must not lose digits of large values (uint64
+                # needs 20), so they are rounded to the step exactly.
+                ctx.prec = 40 if char.format in INTEGER_TYPES else 6
 
                 # Python3 uses bankers rounding by default, so 28.5 rounds to 28, not 29.
                 # This is surprising for most people
